@@ -172,6 +172,7 @@ type pathCtx struct {
 	pureSkip    map[*ssa.Function]int
 	sigs        map[string]*Term // known-finding signatures declared so far on this path
 	uuidSeq     int
+	uniqueTab   map[string]*value
 	sigOrd      []string
 	asserts     int
 	atoms       map[string]*atomInfo
